@@ -228,3 +228,92 @@ def run_e1(prop, tier, seed, slices, props=None, extra_factory=None,
           f"states={len(states)} transitions={tot['events']} distinct_outcomes="
           f"{len(sigs)} status={status} capped={capped} wall={wall:.1f}s")
     finish_process(lines, n_viol, rep.broken)
+
+
+# ------------------------------------------------------------------- generic driver
+def run_generic(prop, tier, seed, items, job, extra=(), engine="e3", level="model_checking",
+                rule="", assumptions=(), required_stats=(), chunk=4, budget_s=None,
+                exhaustive_note=None, confirm_job=None, states_key="states",
+                transitions_key="transitions"):
+    """items -> job(item, *extra) in worker processes.  A job returns a dict with
+    integer counters under 'stats' (summed), 'states'/'transitions'/'validated'
+    counters, optional 'distinct' (list of hashes, unioned), 'violations' (list of
+    {rule, msg, case}), 'samples' (list)."""
+    t0 = time.time()
+    deadline = (t0 + budget_s) if budget_s else None
+    rep = Report(prop)
+    stats = {}
+    tot = {"items": 0, "states": 0, "transitions": 0, "validated": 0, "evaluations": 0}
+    distinct = set()
+    samples = []
+    try:
+        for res in pmap(job, items, extra=extra, chunk=chunk, deadline=deadline):
+            tot["items"] += 1
+            for k in ("states", "transitions", "validated", "evaluations"):
+                tot[k] += int(res.get(k, 0))
+            for k, v in (res.get("stats") or {}).items():
+                stats[k] = stats.get(k, 0) + v
+            if len(distinct) < 3_000_000:
+                distinct.update(res.get("distinct") or ())
+            for s in (res.get("samples") or []):
+                if len(samples) < 5:
+                    samples.append(s)
+            for v in (res.get("violations") or []):
+                rep.add(v, v.get("world"), v.get("case"))
+    except BrokenCheck as e:
+        print("BROKEN-CHECK: harness failure\n" + str(e))
+        sys.exit(2)
+    capped = pmap.capped
+
+    def confirm(viol, world, case):
+        if confirm_job is None:
+            return True
+        outs = []
+        for _ in range(2):
+            for r in pmap(confirm_job, [case], extra=extra, chunk=1, procs=1):
+                outs.append(sorted((v["rule"], v["msg"]) for v in r.get("violations", [])))
+        return outs[0] == outs[1] and (viol["rule"], viol["msg"]) in outs[0]
+
+    lines, n_viol = rep.finish(engine, confirm)
+    for k in required_stats:
+        if not stats.get(k):
+            rep.broken.append(f"vacuity: outcome class '{k}' never observed")
+    coverage = {
+        "states": max(tot["states"], 1),
+        "transitions": max(tot["transitions"], 1),
+        "traces_validated_against_impl": tot["validated"],
+        "samples": samples or [{"note": "no sample"}],
+        "exhaustive": capped == 0,
+        "evaluations": max(tot["evaluations"], tot["items"]),
+        "distinct_nontrivial": len(distinct),
+        "rule": rule,
+        "work_items": tot["items"],
+        "work_items_not_run_due_to_time_cap": capped,
+        "outcome_classes": stats,
+        "known_findings_hit": rep.known,
+    }
+    if exhaustive_note:
+        coverage["exhaustive_note"] = exhaustive_note
+    wall = time.time() - t0
+    write_evidence(prop, tier, seed, level, coverage, wall, n_viol, assumptions)
+    print(f"{prop} {tier} seed={seed}: items={tot['items']} states={tot['states']} "
+          f"transitions={tot['transitions']} validated={tot['validated']} "
+          f"distinct={len(distinct)} capped={capped} wall={wall:.1f}s")
+    finish_process(lines, n_viol, rep.broken)
+
+
+def generic_replay(prop, path, job, extra=()):
+    with open(path) as f:
+        d = json.load(f)
+    case = d.get("payload")
+    want = d["violation"]
+    out = None
+    for r in pmap(job, [case], extra=extra, chunk=1, procs=1):
+        out = r
+    got = [(v["rule"], v["msg"]) for v in out.get("violations", [])]
+    print(f"replay of {path}: {got[:5]}")
+    if any(g[0] == want["rule"] for g in got):
+        print(f"VIOLATION property={prop} replay={path}")
+        return 1
+    print("not reproduced")
+    return 0
